@@ -249,7 +249,7 @@ class Run:
         f.write_text(text)
         return sh("coqc %s -w none %s" % (QFLAGS, f.name), cwd=self.work, timeout=timeout)
 
-    def coq_eval_many(self, files, timeout=900):
+    def coq_eval_many(self, files, timeout=900, mem_kb=None):
         """files: {name: text}; compiled in parallel. Returns {name: (rc, out)}."""
         for n, t in files.items():
             (self.work / ("%s.v" % n)).write_text(t)
@@ -263,6 +263,7 @@ class Run:
             while i < len(names) and len(running) < NPROC:
                 n = names[i]; i += 1
                 running[n] = subprocess.Popen(
+                    ("ulimit -v %d; " % mem_kb if mem_kb else "") +
                     "timeout %d coqc %s -w none %s.v" % (timeout, QFLAGS, n), shell=True, cwd=self.work,
                     stdout=subprocess.PIPE, stderr=subprocess.STDOUT, text=True, env=e)
             done = [n for n, p in running.items() if p.poll() is not None]
@@ -273,6 +274,38 @@ class Run:
                 res[n] = (p.returncode, out)
             if not done:
                 time.sleep(0.05)
+        return res
+
+    def coq_eval_terms(self, header, terms, per=60, timeout=600, mem_kb=6000000, tag="t"):
+        """Evaluate `Eval vm_compute in [t1; t2; ...]` robustly: chunks of `per` terms in parallel (memory-limited);
+        a chunk that fails (time-out, out of memory, killed) is split in halves down to single terms.
+        Returns a list with one parsed value (string) per term, or None where Coq could not decide."""
+        res = [None] * len(terms)
+        work = [list(range(k, min(k + per, len(terms)))) for k in range(0, len(terms), per)]
+        rnd = 0
+        while work:
+            files = {}
+            for j, idxs in enumerate(work):
+                files["%s_%s_%d_%d" % (tag, self.pid, rnd, j)] = header + "Eval vm_compute in %s.\n" % coq_list([terms[i] for i in idxs])
+            outs = self.coq_eval_many(files, timeout=timeout, mem_kb=mem_kb)
+            nxt = []
+            for j, idxs in enumerate(work):
+                rc, out = outs["%s_%s_%d_%d" % (tag, self.pid, rnd, j)]
+                vals = self.parse_list_output(out) if rc == 0 else None
+                if vals is not None and len(vals) == len(idxs):
+                    for i, v in zip(idxs, vals):
+                        res[i] = v
+                elif len(idxs) > 1:
+                    h = len(idxs) // 2
+                    nxt += [idxs[:h], idxs[h:]]
+                else:
+                    self.coq_undecided = getattr(self, "coq_undecided", 0) + 1
+                    if "Error" in out and "Killed" not in out and "imeout" not in out and "Out of memory" not in out \
+                            and "Stack overflow" not in out:
+                        self.coq_errors = getattr(self, "coq_errors", []) + [out[-600:]]
+            work = nxt
+            rnd += 1
+            timeout = max(120, timeout // 2)
         return res
 
     @staticmethod
